@@ -10,6 +10,7 @@ CONSTANTS
   MaxChal = 8
   Defects = {}
   ImmModes = {TRUE, FALSE}
+  NakModes = {TRUE, FALSE}
   AdvKinds = {"flip", "trunc", "replay"}
   Ops = {"auth", "protect", "lock", "ndef", "format"}
 INVARIANT Reached
